@@ -5,11 +5,14 @@
       rt2 <line> <ncols> <v0,v1,..>  read_table_line_TOUGH2
       ra2 <line> <start>             read_table_line_AUTOUGH2
       kfl <line> <k0,k1,..>          key_from_line
-      tok <line> <I>                 row_tokens (the specification; tied to the Python oracle tokenizer) *)
+      tok <line> <I>                 row_tokens (the specification; tied to the Python oracle tokenizer)
+      file <sim> <skip,skip> <i,i,..> <line> <line> ...
+                                     open_listing (file-level reader, Reader.v) followed by set_index for each i:
+                                     table structures, and at each index the index/time/step and every cell *)
 From Coq Require Import Ascii String List Bool ZArith NArith.
 From PTBase Require Import Exn PyStr PyNum PyVal Wire.
 From PTModel Require Import Fortran.
-From P Require Import Model.
+From P Require Import Model Table Reader.
 Import ListNotations.
 Open Scope char_scope.
 
@@ -20,11 +23,83 @@ Definition zlist (s : str) : list Z := match s with [] => [] | _ => map z_of_str
 Definition flag (s : str) : bool := str_eqb s (s2l "1").
 Definition show_vals (l : list pyval) : str := join_with (s2l ";") (map show_pyval l).
 
+(** *** file-level cases: the answer is assembled from small pieces with tail-recursive appends *)
+(** the case line is long (a whole listing): split and decode it in linear time.  [split_fast] is PTBase's
+    [split_c] with a linear reversal; [unhex_fast] is Wire's [unhex] on well-formed hexadecimal text. *)
+Fixpoint split_fast_aux (ch : ascii) (cur : str) (s : str) (acc : list str) : list str :=
+  match s with
+  | [] => rev_append acc [rev_append cur []]
+  | c :: r => if ceqb c ch then split_fast_aux ch [] r (rev_append cur [] :: acc) else split_fast_aux ch (c :: cur) r acc
+  end.
+Definition split_fast (ch : ascii) (s : str) : list str := split_fast_aux ch [] s [].
+Definition hexbits (c : ascii) : bool * bool * bool * bool :=      (* least significant first *)
+  match c with
+  | "0" => (false, false, false, false) | "1" => (true, false, false, false) | "2" => (false, true, false, false)
+  | "3" => (true, true, false, false) | "4" => (false, false, true, false) | "5" => (true, false, true, false)
+  | "6" => (false, true, true, false) | "7" => (true, true, true, false) | "8" => (false, false, false, true)
+  | "9" => (true, false, false, true) | "a" | "A" => (false, true, false, true) | "b" | "B" => (true, true, false, true)
+  | "c" | "C" => (false, false, true, true) | "d" | "D" => (true, false, true, true) | "e" | "E" => (false, true, true, true)
+  | "f" | "F" => (true, true, true, true) | _ => (false, false, false, false)
+  end.
+Fixpoint unhex_fast_aux (s : str) (acc : str) : str :=
+  match s with
+  | a :: b :: r => let '(a0, a1, a2, a3) := hexbits a in let '(b0, b1, b2, b3) := hexbits b in
+                   unhex_fast_aux r (Ascii b0 b1 b2 b3 a0 a1 a2 a3 :: acc)
+  | _ => rev_append acc []
+  end.
+Definition unhex_fast (s : str) : str := unhex_fast_aux s [].
+Definition flatten (l : list str) : str := rev_append (fold_left (fun acc s => rev_append s acc) l []) [].
+Definition sep_list {A} (sep : A) (l : list A) : list A :=
+  match l with [] => [] | a :: r => a :: concat (map (fun x => [sep; x]) r) end.
+Definition tabc : str := [tab].
+Definition show_zs (l : list Z) : list str := sep_list comma (map show_z l).
+Definition show_nats (l : list nat) : list str := sep_list comma (map show_nat l).
+Definition show_names (k : list str) : list str := sep_list (s2l ".") (map hex k).
+Definition show_table (nt : str * ltable) : list str :=
+  let (n, T) := nt in
+  [s2l "|T"; tabc; hex n; tabc; show_nat (lt_nkeys T); tabc] ++ sep_list comma (map hex (lt_cols T)) ++ [tabc]
+  ++ show_zs (lt_keypos T) ++ [tabc] ++ show_zs (lt_values T) ++ [tabc; show_nat (lt_hskip T); tabc]
+  ++ show_nats (lt_skips T) ++ [tabc] ++ show_nats (lt_rowline T) ++ [tabc]
+  ++ concat (sep_list [comma] (map show_names (lt_rows T))).
+Definition show_data (nt : str * ltable) : list str :=
+  let (n, T) := nt in
+  [s2l "|D"; tabc; hex n; tabc]
+  ++ concat (sep_list [s2l "/"] (map (fun r => sep_list (s2l ";") (map show_pyval r)) (lt_data T))).
+Definition show_at (i : Z) (r : res lstate) : list str :=
+  match r with
+  | Raise e => [s2l "|I"; tabc; show_z i; tabc; s2l "RAISE "; show_exn e]
+  | Ok st => [s2l "|I"; tabc; show_z i; tabc; show_z (s_index st); tabc; show_pyval (s_time st); tabc; show_pyval (s_step st)]
+             ++ concat (map show_data (s_tables st))
+  end.
+(** indices are visited in the order given, each from the state the previous one left (as the reader does) *)
+Fixpoint visit (st : lstate) (idx : list Z) : list str :=
+  match idx with
+  | [] => []
+  | i :: r => let s' := set_index st i in
+              show_at i s' ++ visit (match s' with Ok x => x | Raise _ => st end) r
+  end.
+Definition parse_sim (s : str) : sim :=
+  if str_eqb s (s2l "AUTOUGH2") then AUT else if str_eqb s (s2l "TOUGH2_MP") then T2MP else if str_eqb s (s2l "TOUGH3") then T3
+  else if str_eqb s (s2l "TOUGHREACT") then TREACT else if str_eqb s (s2l "TOUGH+") then TPLUS else T2.
+Definition run_file (sm skips idx : str) (lines : list str) : str :=
+  let file := map unhex_fast lines in
+  match open_listing (parse_sim sm) (match skips with [] => [] | _ => map unhex (split_c "," skips) end) file with
+  | Raise e => s2l "RAISE " ++ show_exn e
+  | Ok st =>
+      flatten ([s2l "OK|N"; tabc; show_nat (length file); tabc] ++ show_nats (map (@length str) (s_fullpos st))
+               ++ [s2l "|H"; tabc; hex (s_title st)]
+               ++ concat (map show_table (s_tables st)) ++ show_at 0 (Ok st) ++ visit st (zlist idx))
+  end.
+
 Definition run_case (line : str) : str :=
-  match fields line with
+  match (match line with "f" :: "i" :: "l" :: "e" :: _ => split_fast tab line | _ => fields line end) with
   | k :: h :: args =>
       let s := unhex h in
-      if str_eqb k (s2l "sov") then
+      if str_eqb k (s2l "file") then
+        match args with
+        | sk :: idx :: lines => run_file h sk idx lines
+        | _ => s2l "BADCASE" end
+      else if str_eqb k (s2l "sov") then
         match args with
         | [i] => match start_of_values s (flag i) with
                  | Ok (Some z) => s2l "Z " ++ show_z z
